@@ -98,7 +98,7 @@ func TestVerifC02Pinned(t *testing.T) {
 		}
 	}
 	for _, r := range rows {
-		for _, p := range []placement{foreign, own, none} {
+		for _, p := range []placement{foreign, foreignOwnPlain, foreignExtraPlain, own, none} {
 			r, p := r, p
 			runCase(rec, r.build, p, r.runs, func() any { return r.name }, func(f string, a ...any) {
 				t.Errorf("pinned row %q placement=%s: %s", r.name, p, fmt.Sprintf(f, a...))
